@@ -29,6 +29,13 @@ package lnwire
 //     extension stream of lnwire messages]. Diagnostic only for the message
 //     types listed in verifC10OpaqueExt (extension kept as opaque bytes).
 //
+//   - unknown_records_preserved: accepted message, canonical extension, and the
+//     re-encoded extension equals the input with exactly the records of types
+//     the encoder never emits for that message removed (all other records
+//     byte-identical) => key "<msg>|unknown-records-dropped-on-reencode"
+//     ["decodes back to an equal value with unknown records ... preserved"].
+//     Any other re-encoding difference stays in the diagnostic below.
+//
 // Diagnostics: ext_reencode_reproduces_input (accepted + canonical extension
 // must re-encode to the input; NOT silent on the pinned tree: typed-record
 // messages drop unknown extension records), fixpoint_value_repr (m1 vs m2 differ structurally although
@@ -1216,20 +1223,29 @@ func verifC10WalkLenientBigSize(e []byte, big, zero map[uint64]bool) bool {
 
 // verifC10RecordsDropped reports whether out is in with one or more whole
 // records removed (everything else byte-identical).
-func verifC10RecordsDropped(in, out []byte) bool {
+func verifC10RecordsDropped(in, out []byte) (bool, []uint64) {
 	ri, ok1, _ := verifC10WalkTLV(in)
 	ro, ok2, _ := verifC10WalkTLV(out)
 	if !ok1 || !ok2 || len(ro) >= len(ri) {
-		return false
+		return false, nil
 	}
+	var dropped []uint64
 	j := 0
 	for _, rc := range ri {
 		if j < len(ro) && bytes.Equal(in[rc.Off:rc.End], out[ro[j].Off:ro[j].End]) {
 			j++
+			continue
 		}
+		dropped = append(dropped, rc.T)
 	}
-	return j == len(ro)
+	return j == len(ro), dropped
 }
+
+// verifC10KnownExtTypes collects, per message type, the record types that the
+// REAL encoder has emitted for generated valid values in this shard (typed
+// fields of the message). A record type outside this set that lnd accepts in
+// the extension is an unknown record for that message.
+var verifC10KnownExtTypes = map[MessageType]map[uint64]bool{}
 
 // checkExt runs the extension oracles on F||E' for every mutant E'.
 func (h *verifC10H) checkExt(r *verifRng, tg verifC10Target, b0 []byte) {
@@ -1241,6 +1257,12 @@ func (h *verifC10H) checkExt(r *verifRng, tg verifC10Target, b0 []byte) {
 	}
 	f, e := b0[:off], b0[off:]
 	recs, _, _ := verifC10WalkTLV(e)
+	if verifC10KnownExtTypes[tg.Msg] == nil {
+		verifC10KnownExtTypes[tg.Msg] = map[uint64]bool{}
+	}
+	for _, rc := range recs {
+		verifC10KnownExtTypes[tg.Msg][rc.T] = true
+	}
 	if len(recs) == 0 {
 		vc.Count("ext_empty", 1)
 		// still probe an extension made of harness records only
@@ -1322,15 +1344,37 @@ func (h *verifC10H) checkExt(r *verifRng, tg verifC10Target, b0 []byte) {
 		}
 		// accepted and canonical: decode-then-encode should reproduce it
 		vc.Count("ext_reencode_evals", 1)
+		vc.Count("unknown_records_preserved_evals", 1)
 		b1, _, err := tg.encode(m1)
 		if err != nil || !bytes.Equal(b1, b) {
 			wit := h.witness(tg, class, b)
 			wit["extension_offset"] = off
 			kind := "other"
-			if err == nil && len(b1) >= off && bytes.Equal(b1[:off], f) &&
-				verifC10RecordsDropped(e2, b1[off:]) {
-
-				kind = "unknown-records-dropped"
+			if err == nil && len(b1) >= off && bytes.Equal(b1[:off], f) {
+				if ok, dropped := verifC10RecordsDropped(e2, b1[off:]); ok {
+					kind = "unknown-records-dropped"
+					for _, t := range dropped {
+						if verifC10KnownExtTypes[tg.Msg][t] {
+							kind = "known-record-dropped"
+						}
+					}
+				}
+			}
+			if kind == "unknown-records-dropped" {
+				// "...decodes back to an equal value with unknown
+				// records and trailing extension data preserved":
+				// the extension was canonical, the message was
+				// accepted, every record of a type the encoder
+				// itself emits is byte-identical, and exactly the
+				// unknown-type records are gone.
+				wit := h.witness(tg, class, b)
+				wit["extension_offset"] = off
+				wit["extension"] = verifHex(e2[:min(len(e2), 1024)])
+				wit["reencoded_extension"] = verifHex(b1[off:min(len(b1), off+1024)])
+				h.viol("unknown_records_preserved", actual+"|unknown-records-dropped-on-reencode",
+					fmt.Sprintf("accepted F||E with canonical E=%s; re-encoded extension=%s: the "+
+						"unknown records are gone", verifHex(e2[:min(len(e2), 256)]),
+						verifHex(b1[off:min(len(b1), off+256)])), wit)
 			}
 			vc.Count("ext_reencode_diff:"+actual+"|"+kind, 1)
 			vc.Diag("ext_reencode_reproduces_input:"+kind, actual+"|"+class+": "+fmt.Sprintf(
